@@ -30,7 +30,7 @@ fn c03_layout_independence() {
     // (a) reverse physical order inside one file, with garbage between blocks
     { cases += 1; let mut d = DataDir::new();
       for h in (0..6u64).rev() { let gl = rng.below(40) as usize; let g = rng.bytes(gl); let off = d.put_block(0, 0xd9b4bef9, &chain[h as usize].ser(), &g);
-          d.recs.push(IndexRec { hash: chain[h as usize].hash(), version: 1, height: h, status: ST_ACTIVE, ntx: 1, file: 0, offset: off }); }
+          d.recs.push(IndexRec { hash: chain[h as usize].hash(), version: 1, height: h, status: ST_ACTIVE, ntx: 1, file: 0, offset: off, header: None }); }
       d.write(); cmp_delivery(suite, "C03:block_comes_from_file_and_offset_of_its_index_record", "reverse order + garbage gaps", fetch_all(&d, "bitcoin", 6, false), &want); }
     // (b) interleaved over three files with large numbers and different name padding
     { cases += 1; let mut d = DataDir::new();
@@ -57,7 +57,7 @@ fn c03_layout_independence() {
     { cases += 1; let mut d = DataDir::new();
       let base_h = 3_000_000u64;
       for h in 0..6u64 { let g = vec![0u8; (h * 40_000) as usize]; let off = d.put_block(16512 + h, 0xd9b4bef9, &chain[h as usize].ser(), &g);
-          d.recs.push(IndexRec { hash: chain[h as usize].hash(), version: 0x2000_0000, height: base_h + h, status: ST_ACTIVE, ntx: 1, file: 16512 + h, offset: off }); }
+          d.recs.push(IndexRec { hash: chain[h as usize].hash(), version: 0x2000_0000, height: base_h + h, status: ST_ACTIVE, ntx: 1, file: 16512 + h, offset: off, header: None }); }
       d.write();
       let got = fetch(d.path(), "bitcoin", 0, None, false, &(base_h..base_h + 6).collect::<Vec<_>>());
       cmp_delivery(suite, "C03:core_varint_decoded_exactly", "heights 3000000.., files 16512.., offsets up to 200008", got, &want);
@@ -72,7 +72,7 @@ fn c03_layout_independence() {
     for key in [vec![0x5au8, 0x01, 0xc3, 0x7e, 0x99, 0x10, 0xe4, 0x2b], vec![0xa1, 0x3c, 0x5e, 0x77, 0x09, 0xd2, 0x4b, 0xa1]] {
       cases += 1; let mut d = DataDir::new();
       for h in (0..6u64).rev() { let gl = 1 + rng.below(9) as usize; let g = rng.bytes(gl); let off = d.put_block(h % 2, 0xd9b4bef9, &chain[h as usize].ser(), &g);
-          d.recs.push(IndexRec { hash: chain[h as usize].hash(), version: 1, height: h, status: ST_ACTIVE, ntx: 1, file: h % 2, offset: off }); }
+          d.recs.push(IndexRec { hash: chain[h as usize].hash(), version: 1, height: h, status: ST_ACTIVE, ntx: 1, file: h % 2, offset: off, header: None }); }
       d.xor_key = Some(key.clone());
       d.write(); cmp_delivery(suite, "C03:block_comes_from_file_and_offset_of_its_index_record", &format!("reverse order over two files with 1..9 byte gaps, xor.dat = {}", hex(&key)), fetch_all(&d, "bitcoin", 6, false), &want); }
     finish(suite, cases);
@@ -87,7 +87,7 @@ fn c03_offset_beyond_4gib() {
     d.add(0, 0, &chain[0], ST_ACTIVE);
     d.add(0, 2, &chain[2], ST_ACTIVE);
     let far: u64 = (1u64 << 32) + 8;
-    d.recs.push(IndexRec { hash: chain[1].hash(), version: 1, height: 1, status: ST_ACTIVE, ntx: 1, file: 0, offset: far });
+    d.recs.push(IndexRec { hash: chain[1].hash(), version: 1, height: 1, status: ST_ACTIVE, ntx: 1, file: 0, offset: far, header: None });
     d.write();
     let raw = chain[1].ser();
     let mut rec = 0xd9b4bef9u32.to_le_bytes().to_vec(); rec.extend_from_slice(&(raw.len() as u32).to_le_bytes()); rec.extend_from_slice(&raw);
@@ -109,13 +109,29 @@ fn c04_competitor_records() {
       // hashes sorting before (00..) and after (ff..) every active hash; statuses: header-only, failed without data
       for (i, h) in [1u64, 3, 4, 5, 9].iter().enumerate() { for fill in [0x00u8, 0xff] { for (j, st) in [ST_HEADER_ONLY, 1, 34, 66, 33, 98].iter().enumerate() {
           let mut hash = [fill; 32]; hash[31] = (i * 8 + j) as u8;
-          d.recs.push(IndexRec { hash, version: 0x2000_0800, height: *h, status: *st, ntx: 0, file: 0, offset: 0 }); } } }
+          d.recs.push(IndexRec { hash, version: 0x2000_0800, height: *h, status: *st, ntx: 0, file: 0, offset: 0, header: None }); } } }
       d.write();
       cmp_delivery(suite, "C04:header_only_records_never_delivered", "header-only / failed-without-data records (status 2,1,34,66,33,98) at heights 1,3,4,5,9, hashes sorting before and after", fetch_all(&d, "bitcoin", 5, false), &want);
       let got = drive(d.path(), "bitcoin", 0, None, false);
       let n = got.as_ref().map(|v| v.iter().filter(|e| matches!(e, Event::Block(..))).count()).unwrap_or(0);
       cases += 1;
       check(n == 5, suite, "C04:header_only_records_beyond_tip_do_not_extend_the_run", "header-only record at height 9 beyond tip 4", &format!("{} blocks delivered ({:?})", n, got.as_ref().err()), "5 blocks"); }
+    // Core-shaped header-only records (no nFile / nDataPos fields: the stored 80-byte header follows the tx count directly)
+    // whose header bytes are anything at all -- version 0xffffffff, a prev-hash of 0xff bytes, all zero, random
+    { cases += 1; let mut d = simple_dir(&chain);
+      let mut rng = Rng::new(404);
+      let mut headers: Vec<[u8; 80]> = vec![[0xff; 80], [0x80; 80], [0u8; 80]];
+      for _ in 0..6 { let mut h = [0u8; 80]; h.copy_from_slice(&rng.bytes(80)); headers.push(h); }
+      let mut h2 = [0u8; 80]; h2[..4].copy_from_slice(&0x3fff_e000u32.to_le_bytes()); for b in h2[4..36].iter_mut() { *b = 0xee; } headers.push(h2);
+      for (i, hd) in headers.iter().enumerate() { for (j, height) in [2u64, 4, 7].iter().enumerate() {
+          let mut hash = [if i % 2 == 0 { 0x00 } else { 0xff }; 32]; hash[30] = i as u8; hash[31] = j as u8;
+          d.recs.push(IndexRec { hash, version: 0x2000_0000, height: *height, status: ST_HEADER_ONLY, ntx: 0, file: 0, offset: 0, header: Some(*hd) }); } }
+      d.write();
+      let r = std::panic::catch_unwind(std::panic::AssertUnwindSafe(|| fetch_all(&d, "bitcoin", 5, false)));
+      match r {
+          Ok(got) => cmp_delivery(suite, "C04:header_only_records_never_delivered", "Core-shaped header-only records at heights 2, 4, 7 with arbitrary stored header bytes", got, &want),
+          Err(_) => fail(suite, "C04:header_only_records_never_delivered", "Core-shaped header-only records at heights 2, 4, 7 with arbitrary stored header bytes (0xff.., 0x80.., random)", "panic while loading the block index", "the active chain delivered"),
+      } }
     // stale sibling with data whose hash sorts AFTER the active block's hash (known finding) and BEFORE it; never-connected
     // (validity 3) and once-active reorged-out (same status as the active block)
     for later in [false, true] { for status in [3u64 | 8, ST_ACTIVE] {
@@ -125,7 +141,7 @@ fn c04_competitor_records() {
         // grind the nonce until the stale hash sorts as wanted relative to the active block 2
         loop { let s = stale.hash(); if (s > chain[2].hash()) == later { break; } stale.nonce += 1; }
         let off = d.put_block(0, 0xd9b4bef9, &stale.ser(), &[]);
-        d.recs.push(IndexRec { hash: stale.hash(), version: 1, height: 2, status, ntx: 1, file: 0, offset: off });
+        d.recs.push(IndexRec { hash: stale.hash(), version: 1, height: 2, status, ntx: 1, file: 0, offset: off, header: None });
         d.write();
         let c = if later { "C04:active_chain_only/stale_sibling_with_data_sorting_later" } else { "C04:active_chain_only/stale_sibling_with_data_sorting_earlier" };
         cmp_delivery(suite, c, &format!("stale sibling with data at height 2 (status {}), hash sorts {} the active one", status, if later { "after" } else { "before" }), fetch_all(&d, "bitcoin", 5, false), &want);
@@ -196,7 +212,7 @@ fn c09_verify_rejects_inconsistent_blocks() {
             let mut d = DataDir::new();
             for (i, b) in chain.iter().enumerate() {
                 if i == h { let mut m = raw.clone(); m[pos] ^= bit; let off = d.put_block(0, 0xd9b4bef9, &m, &[]);
-                    d.recs.push(IndexRec { hash: b.hash(), version: 1, height: i as u64, status: ST_ACTIVE, ntx: 1, file: 0, offset: off }); }
+                    d.recs.push(IndexRec { hash: b.hash(), version: 1, height: i as u64, status: ST_ACTIVE, ntx: 1, file: 0, offset: off, header: None }); }
                 else { d.add(0, i as u64, b, ST_ACTIVE); }
             }
             d.write();
@@ -216,7 +232,7 @@ fn c09_verify_rejects_inconsistent_blocks() {
         let mut d = DataDir::new();
         for (i, b) in chain.iter().enumerate() {
             if i == 4 { let mut m = b.ser(); m[patch_at] = 0xfc; let off = d.put_block(0, 0xd9b4bef9, &m, &[]);
-                d.recs.push(IndexRec { hash: b.hash(), version: 1, height: 4, status: ST_ACTIVE, ntx: 1, file: 0, offset: off }); }
+                d.recs.push(IndexRec { hash: b.hash(), version: 1, height: 4, status: ST_ACTIVE, ntx: 1, file: 0, offset: off, header: None }); }
             else { d.add(0, i as u64, b, ST_ACTIVE); }
         }
         d.write();
@@ -229,7 +245,7 @@ fn c09_verify_rejects_inconsistent_blocks() {
       for s in [0u64, 3] { cases += 1;
         let mut d = DataDir::new();
         for (i, b) in chain.iter().enumerate() { if i == 3 { let off = d.put_block(0, 0xd9b4bef9, &foreign[3].ser(), &[]);
-                d.recs.push(IndexRec { hash: foreign[3].hash(), version: 1, height: 3, status: ST_ACTIVE, ntx: 2, file: 0, offset: off }); } else { d.add(0, i as u64, b, ST_ACTIVE); } }
+                d.recs.push(IndexRec { hash: foreign[3].hash(), version: 1, height: 3, status: ST_ACTIVE, ntx: 2, file: 0, offset: off, header: None }); } else { d.add(0, i as u64, b, ST_ACTIVE); } }
         d.write();
         let r = fetch(d.path(), "bitcoin", s.max(1), None, true, &[3]);
         let rejected = match &r { Ok(v) => v[0].is_err(), Err(_) => true };
@@ -253,7 +269,7 @@ fn c09_bitcoin_genesis_accepted() {
     let raw = crate::common::utils::hex_to_vec("0100000000000000000000000000000000000000000000000000000000000000000000003ba3edfd7a7b12b27ac72c3e67768f617fc81bc3888a51323a9fb8aa4b1e5e4a29ab5f49ffff001d1dac2b7c0101000000010000000000000000000000000000000000000000000000000000000000000000ffffffff4d04ffff001d0104455468652054696d65732030332f4a616e2f32303039204368616e63656c6c6f72206f6e206272696e6b206f66207365636f6e64206261696c6f757420666f722062616e6b73ffffffff0100f2052a01000000434104678afdb0fe5548271967f1a67130b7105cd6a828e03909a67962e0ea1f61deb649f6bc3f4cef38c4f35504e51ec112de5c384df7ba0b8d578a4c702b6bf11d5fac00000000");
     let mut d = DataDir::new();
     let off = d.put_block(0, 0xd9b4bef9, &raw, &[]);
-    d.recs.push(IndexRec { hash: sha256d_of(&raw[..80]), version: 1, height: 0, status: ST_ACTIVE, ntx: 1, file: 0, offset: off });
+    d.recs.push(IndexRec { hash: sha256d_of(&raw[..80]), version: 1, height: 0, status: ST_ACTIVE, ntx: 1, file: 0, offset: off, header: None });
     d.write();
     let r = fetch(d.path(), "bitcoin", 0, None, true, &[0]);
     check(matches!(&r, Ok(v) if matches!(v[0], Ok(Some(_)))), suite, "C09:published_genesis_accepted", "bitcoin genesis block", &format!("{:?}", r.as_ref().map(|v| v[0].is_ok())), "Ok");
@@ -280,7 +296,7 @@ fn c11_xor_directories() {
         cases += 1;
         let mut d = DataDir::new();
         if layout == 0 { for h in (0..6u64).rev() { let gl = rng.below(13) as usize; let g = rng.bytes(gl); let off = d.put_block(h % 2, 0xd9b4bef9, &chain[h as usize].ser(), &g);
-            d.recs.push(IndexRec { hash: chain[h as usize].hash(), version: 1, height: h, status: ST_ACTIVE, ntx: 1, file: h % 2, offset: off }); } }
+            d.recs.push(IndexRec { hash: chain[h as usize].hash(), version: 1, height: h, status: ST_ACTIVE, ntx: 1, file: h % 2, offset: off, header: None }); } }
         else { for h in 0..6u64 { d.add(0, h, &chain[h as usize], ST_ACTIVE); } }
         d.xor_key = Some(k.clone());
         d.write();
@@ -319,7 +335,7 @@ fn c17_open_files_bounded() {
                 let mut stale = BlockSpec::new(chain[(sh - 1) as usize].hash(), 5000 + sh as u32, vec![TxSpec::new(vec![TxIn::coinbase(9)], vec![TxOut::new(1, vec![0x51])])]);
                 loop { if stale.hash() < chain[sh as usize].hash() { break; } stale.nonce += 1; }
                 let off = d.put_block(f(k), 0xd9b4bef9, &stale.ser(), &[]);
-                d.recs.push(IndexRec { hash: stale.hash(), version: 1, height: sh, status: 3 | 8, ntx: 1, file: f(k), offset: off });
+                d.recs.push(IndexRec { hash: stale.hash(), version: 1, height: sh, status: 3 | 8, ntx: 1, file: f(k), offset: off, header: None });
             }
             if mode >= 2 { d.xor_key = Some(vec![0x5a, 0x01, 0xfe, 0x33, 0x90]); }
             d.write();
